@@ -17,9 +17,9 @@
    top level (root/logger `appenders` items): those shapes are outside the tree model,
    the model rejects them).
    Oracles (fields of `env`): TimeTrigger::new (chrono arithmetic; C16), opening the
-   log file (OS), humantime::parse_duration.  FixedWindowRoller::build's
-   `Path::extension() == "zst"` test (feature zstd is off in the verified build, gzip
-   on) is modelled as "ends with .zst", exact when the file name has a non-empty stem.
+   log file (OS), humantime::parse_duration.  FixedWindowRoller::build rejects a
+   `.gz` / `.zst` pattern only when the crate is built without the `gzip` / `zstd`
+   feature; the verified build (the harness) has both on, so the extension is free.
    HashMap iteration order (appenders, loggers) is document order here; names are unique
    map keys, for which the downstream build (C13) and routing (C01) do not depend on
    the order. *)
@@ -74,7 +74,6 @@ Definition s_debug : str := [100;101;98;117;103].
 Definition s_trace : str := [116;114;97;99;101].
 Definition default_pattern : str := [123;100;125;32;123;108;125;32;123;116;125;32;45;32;123;109;125;123;110;125].   (* "{d} {l} {t} - {m}{n}" *)
 Definition s_braces : str := [123;125].   (* "{}" *)
-Definition s_dot_zst : str := [46;122;115;116].   (* ".zst" *)
 
 Definition two32 : N := 4294967296.
 
@@ -219,8 +218,8 @@ Fixpoint contains (p s : str) : bool :=
   prefix_eqb p s || match s with [] => false | _ :: r => contains p r end.
 Definition ends_with (p s : str) : bool := prefix_eqb (rev p) (rev s).
 
-(* FixedWindowRollerBuilder::build: needs "{}"; ".zst" needs the zstd feature (off) *)
-Definition roller_pattern_ok (p : str) : bool := contains s_braces p && negb (ends_with s_dot_zst p).
+(* FixedWindowRollerBuilder::build: needs "{}" (features gzip and zstd are on: any extension) *)
+Definition roller_pattern_ok (p : str) : bool := contains s_braces p.
 
 Definition interp_roller_cfg (kind : str) (m : dmap) : res roller :=
   if str_eqb kind s_delete then
